@@ -103,10 +103,12 @@ def impl(case):
     import msmhelper as mh
     from implutil import build, canon
     data = build(case['form'], case['trajs'], case.get('dtypes') or [case['dtype']], case.get('layout'))
-    T, st = mh.msm.estimate_markov_model(data, case['lag'])
+    import numpy as np
+    lag = np.dtype(case['lagtype']).type(case['lag']) if case.get('lagtype') else case['lag']
+    T, st = mh.msm.estimate_markov_model(data, lag)
     data2 = build(case['form'], case['trajs'], case.get('dtypes') or [case['dtype']], case.get('layout'))
     obj = mh.StateTraj(data2)
-    T2, st2 = obj.estimate_markov_model(case['lag'])
+    T2, st2 = obj.estimate_markov_model(lag)
     out = {'T': canon(T), 'st': canon(st), 'T2': canon(T2), 'st2': canon(st2)}
     # the caller owns what was returned: overwriting it must not reach a later estimate on the same object
     import numpy as np
